@@ -358,6 +358,48 @@ func init() {
 						}
 					}
 				}
+				// zero is zero: a copy in which every zero coordinate carries the other sign is equal to the original
+				if pts := flatPoints(a); len(pts) > 0 && !hasNilSlice(a) {
+					zeros := 0
+					neg := mapGeom(a, func(p orb.Point) orb.Point {
+						for d := 0; d < 2; d++ {
+							if p[d] == 0 {
+								p[d] = math.Copysign(0, -1)
+								zeros++
+							}
+						}
+						return p
+					})
+					if zeros > 0 {
+						ez := map[string]interface{}{"k": "eqzero", "nt": 1}
+						site = guard(func() { ez["ab"], ez["ba"] = orb.Equal(a, neg), orb.Equal(neg, a) })
+						if site != "" {
+							c.emit(panicEvent("orb.Equal", site, ez))
+						} else {
+							c.emit(ez)
+						}
+					}
+				}
+				// bounds are equal when their corners are - empty ones too (an empty bound has corners like any other)
+				{
+					mkb := func() orb.Bound {
+						return orb.Bound{Min: orb.Point{float64(c.rng.Intn(5) - 2), float64(c.rng.Intn(5) - 2)}, Max: orb.Point{float64(c.rng.Intn(5) - 2), float64(c.rng.Intn(5) - 2)}}
+					}
+					b1, b2 := mkb(), mkb()
+					if c.rng.Intn(3) == 0 {
+						b2 = b1
+					}
+					eb := map[string]interface{}{"k": "equb", "nt": 1, "same": b2i(b1 == b2)}
+					site = guard(func() {
+						eb["ab"] = orb.Equal(b1, b2) && b1.Equal(b2) && orb.Equal(orb.Collection{b1}, orb.Collection{b2})
+						eb["any"] = orb.Equal(b1, b2) || b1.Equal(b2) || orb.Equal(orb.Collection{b1}, orb.Collection{b2})
+					})
+					if site != "" {
+						c.emit(panicEvent("orb.Equal", site, eb))
+					} else {
+						c.emit(eb)
+					}
+				}
 				// a third value for transitivity
 				cc := orb.Clone(b)
 				if c.rng.Intn(3) == 0 {
